@@ -25,6 +25,7 @@ from vf.runner import Unsupported
 WF_HEADER = (r"[a-z0-9][-+0-9a-z.]* \([^() \t\n]+\)( [-+0-9a-z.]+)+; urgency=[-0-9a-z]+( [^,\n]*[^,\s])?"
              r"(, [-0-9a-z]+=[^,\n]*[^,\s])*")
 WF_TRAILER = (r" -- [^\n]* <[^\n]*>  ([A-Za-z]+, )?[0-9]{1,2} [A-Za-z]+ [0-9]{4} [0-9]{1,2}:[0-9][0-9]:[0-9][0-9] [-+][0-9]{4}")
+HEADING_SHAPE = r"\w[-+0-9a-z.]* \([^() \t]+\)(\s+[-+0-9a-z.]+)+;"       # the loosest heading the parser may take for one
 WF_CHANGE = r"  [^\n]*"
 WF_BLANK = r"[ \t]*"
 
@@ -36,6 +37,7 @@ def regex_lemmas(ctx, real):
         P = {n: env.add(getattr(real, n), name=n) for n in ("topline", "endline", "endline_nodetails", "changere", "blankline")}
         S = {n: env.add(t, re.IGNORECASE if n == "header" else 0, "WF " + n) for n, t in
              (("header", WF_HEADER), ("trailer", WF_TRAILER), ("change", WF_CHANGE), ("blank", WF_BLANK))}
+        S["heading_shape"] = env.add(HEADING_SHAPE, re.IGNORECASE, "heading shape")
         env.add_chars(";")
         env.finalize()
         L = lambda p, how="match": env.lang(p, how)
@@ -46,6 +48,8 @@ def regex_lemmas(ctx, real):
             ("R-04a every well-formed header line matches topline", env.claim_subset(W("header"), L(P["topline"])), "topline"),
             ("R-04a every line that matches topline contains ';' (line.split(';', 1)[1] cannot fail)",
              env.claim_subset(L(P["topline"]), z3.Concat(env.sigma_star(), env.char(";"), env.sigma_star())), "topline"),
+            ("R-04a every line that matches topline starts with name, blank, parenthesised version, at least one distribution, ';'",
+             env.claim_subset(L(P["topline"]), env.lang(S["heading_shape"], "match")), "topline"),
             ("R-04b every change line matches changere", env.claim_subset(W("change"), L(P["changere"])), "changere"),
             ("R-04b no change line is taken for a trailer (endline)", env.claim_disjoint(L(P["changere"]), L(P["endline"])), "endline"),
             ("R-04b no change line is taken for a bare trailer (endline_nodetails)",
